@@ -58,6 +58,7 @@ func (r *Run) VerifyGenerated(c *Corpus, props ...string) {
 		pm[p] = true
 	}
 	closures := r.generatedClosures(c)
+	r.scriptTemplateContracts(c, tmpl, props)
 	r.extraCov["programs"] = len(c.Metas) - len(c.Skip)
 	r.extraCov["generated_closures"] = len(closures)
 	var skipped []string
@@ -155,8 +156,11 @@ func (ec *evalCtx) genHook(call *ast.CallExpr, fn *types.Func, recv Value, args 
 		}
 		st.ghost["htmlctx"] = next
 	case "(*" + rtPkg + ".Buffer).WriteString":
-		if gi.props["C01"] || gi.props["C03"] || gi.props["C04"] {
+		if gi.props["C01"] || gi.props["C03"] {
 			ec.sinkObligation(call, scalar(args[0]))
+		}
+		if gi.props["C04"] {
+			ec.urlSinkObligation(call, scalar(args[0]))
 		}
 	case "(" + modulePath + ".Component).Render":
 		if gi.props["C13"] {
@@ -167,7 +171,13 @@ func (ec *evalCtx) genHook(call *ast.CallExpr, fn *types.Func, recv Value, args 
 		}
 	case modulePath + ".RenderAttributes":
 		if gi.props["C01"] {
-			ec.contextObligation(call, "spread attributes are rendered", "INTAG")
+			ec.contextObligation(call, "spread attributes are rendered", "INTAG", "TAGNAME", "ATTRNAME", "AFTERNAME")
+			// RenderAttributes writes  name  or  name="value"  runs, each with a leading space: afterwards the
+			// tokenizer is after an attribute name or after a quoted value; take the weaker of the two.
+			st.ghost["htmlctx"] = mapCtx(htmlCtxOf(st), func(k string) *Term {
+				s := parseHTMLKey(k)
+				return Str(htmlState{Mode: "AFTERNAME", Tag: s.Tag}.Key())
+			})
 		}
 	case modulePath + ".RenderCSSItems", modulePath + ".RenderScriptItems":
 		if gi.props["C01"] {
@@ -176,13 +186,20 @@ func (ec *evalCtx) genHook(call *ast.CallExpr, fn *types.Func, recv Value, args 
 	}
 }
 
-func (ec *evalCtx) contextObligation(call *ast.CallExpr, what string, want string) {
+func (ec *evalCtx) contextObligation(call *ast.CallExpr, what string, want ...string) {
 	cur := htmlCtxOf(ec.st)
-	goal := mapCtx(cur, func(k string) *Term { return Bool(parseHTMLKey(k).Mode == want) })
+	goal := mapCtx(cur, func(k string) *Term {
+		for _, w := range want {
+			if parseHTMLKey(k).Mode == w {
+				return True
+			}
+		}
+		return False
+	})
 	if goal == nil {
 		goal = False
 	}
-	ec.fc.oblige(ec.st, "sink", goal, call.Pos(), fmt.Sprintf("%s in HTML context %s (required: %s)", what, ctxText(cur), want))
+	ec.fc.oblige(ec.st, "sink", goal, call.Pos(), fmt.Sprintf("%s in HTML context %s (required: %s)", what, ctxText(cur), strings.Join(want, " or ")))
 }
 
 func ctxText(t *Term) string {
@@ -341,4 +358,88 @@ func (ec *evalCtx) genPostHook(call *ast.CallExpr, fn *types.Func, result Value)
 	sc := &evalCtx{fc: ec.fc, st: ec.st, spec: true, pkg: ec.pkg, pol: -1}
 	slot := sc.specCall(&ast.CallExpr{Fun: ast.NewIdent("slot")})
 	ec.st.Assume(Implies(Eq(res, Int(0)), ec.eqValues(slot, nilMarker{})))
+}
+
+// scriptTemplateContracts: every generated script template (a function of a
+// corpus package returning templ.ComponentScript) gets the SCRIPTFUNC contract
+// of contracts/generated.contract; it is registered (so that call sites in
+// template closures use it) and verified against the generated body.
+func (r *Run) scriptTemplateContracts(c *Corpus, tmpl map[string]*Contract, props []string) {
+	t := tmpl["SCRIPTFUNC/"]
+	if t == nil {
+		return
+	}
+	for _, p := range c.Pkgs {
+		for _, f := range p.Syntax {
+			if !strings.HasSuffix(p.Fset.Position(f.Pos()).Filename, "_templ.go") {
+				continue
+			}
+			for _, d := range f.Decls {
+				fd, ok := d.(*ast.FuncDecl)
+				if !ok || fd.Body == nil || fd.Type.Results == nil || len(fd.Type.Results.List) != 1 {
+					continue
+				}
+				rt := p.TypesInfo.TypeOf(fd.Type.Results.List[0].Type)
+				if rt == nil || types.TypeString(rt, nil) != modulePath+".ComponentScript" {
+					continue
+				}
+				cc := *t
+				cc.Pkg = p.PkgPath
+				cc.Recv = ""
+				if fd.Recv != nil && len(fd.Recv.List) > 0 {
+					cc.Recv = recvTypeName(fd.Recv.List[0].Type)
+				}
+				cc.Name = fd.Name.Name
+				cc.Variant = ""
+				cc.Props = props
+				cc.Loops = map[int]*LoopSpec{}
+				r.e.cs.Contracts[cc.Key()] = &cc
+				r.e.VerifyFunc(&cc)
+			}
+		}
+	}
+}
+
+// urlSinkObligation (C04): a dynamic value in <a href> or <form action> must be
+// attribute-escaped and must come from a variable of static type templ.SafeURL
+// (so that a plain string does not compile).
+func (ec *evalCtx) urlSinkObligation(call *ast.CallExpr, arg *Term) {
+	cur := htmlCtxOf(ec.st)
+	isURLSink := false
+	known := mapCtx(cur, func(k string) *Term {
+		s := parseHTMLKey(k)
+		if s.Mode == "ATTR_DQ" && ((s.Tag == "a" && s.Attr == "href") || (s.Tag == "form" && s.Attr == "action")) {
+			isURLSink = true
+		}
+		return True
+	})
+	if known == nil {
+		ec.fc.oblige(ec.st, "sink", False, call.Pos(), "URL sink check: HTML context not statically known")
+		return
+	}
+	if !isURLSink {
+		return
+	}
+	typed := false
+	if esc, ok := ast.Unparen(call.Args[0]).(*ast.CallExpr); ok {
+		if f := calleeFunc(ec.info, esc); f != nil && f.FullName() == modulePath+".EscapeString" && len(esc.Args) == 1 {
+			if conv, ok := ast.Unparen(esc.Args[0]).(*ast.CallExpr); ok && len(conv.Args) == 1 {
+				if tv, ok := ec.info.Types[conv.Fun]; ok && tv.IsType() {
+					if t := ec.info.TypeOf(conv.Args[0]); t != nil && types.TypeString(t, nil) == modulePath+".SafeURL" {
+						typed = true
+					}
+				}
+			}
+		}
+	}
+	ec.fc.oblige(ec.st, "sink", Bool(typed), call.Pos(), "href/action value "+exprText(call.Args[0])+" must be templ.EscapeString(string(v)) with v of static type templ.SafeURL")
+	// and it must be attribute-safe like any other attribute value
+	e := ec.e()
+	for _, lm := range e.cs.Lemmas {
+		if a, b, ok := inclusionLemma(lm); ok && b == "DQ_ATTR_SAFE" {
+			ec.st.Assume(Implies(e.inL(arg, a), e.inL(arg, b)))
+			e.usedLemmas[lm.Name] = true
+		}
+	}
+	ec.fc.oblige(ec.st, "sink", e.inL(arg, "DQ_ATTR_SAFE"), call.Pos(), "href/action value must be attribute-escaped")
 }
